@@ -32,15 +32,15 @@ ASSUMPTIONS = [
     "i.e. also while blocks are still initialising",
 ]
 REQUIRED = {'sends_judged': 300, 'delivered': 100, 'refused': 100, 'name_checks': 100,
-            'phases_seen': 14, 'autoname_checks': 10}
+            'phases_seen': 15, 'autoname_checks': 10}
 SHARDS = {'quick': 4, 'thorough': 16}
 TIMEOUT = {'quick': 300, 'thorough': 3000}
 
-PHASES = ['no_task', 'finalized_no_task', 'task_created', 'initialising', 'running', 'abort_requested',
+PHASES = ['no_task', 'finalized_no_task', 'task_created', 'run_task_created', 'initialising', 'running', 'abort_requested',
           'shutdown_called', 'ctrl_shutdown_requested', 'in_stop',
           'in_stop_async', 'finished_shutdown', 'finished_error', 'finished_ctrl', 'after_sigterm']
 DELIVER = {'initialising', 'running'}
-DESTS = ['probe', 'input', 'counter', 'fsm']
+DESTS = ['probe', 'input', 'counter', 'fsm', 'pinput', 'pfsm']   # p* = persistent, storage set
 
 SHAPES = [
     # (ctor_source, positional value or NOVALUE, kwargs)
@@ -138,13 +138,14 @@ def run_phase_case(case, ctx):
     def build():
         if destkind == 'probe':
             dest = Probe('dest')
-        elif destkind == 'input':
-            dest = edzed.Input('dest', initdef=0)
-            orig = type(dest)._ct_handlers['put']
+        elif destkind in ('input', 'pinput'):
+            dest = edzed.Input('dest', initdef=0, persistent=destkind == 'pinput')
         elif destkind == 'counter':
             dest = edzed.Counter('dest')
         else:
-            dest = Fsm('dest')
+            dest = Fsm('dest', persistent=destkind == 'pfsm')
+        if destkind.startswith('p'):
+            edzed.get_circuit().set_persistent_data({})
         objs['dest'] = dest
         Gate('gate', x_hold=phase == 'initialising', x_phase=phase, init_timeout=10, stop_timeout=5)
         if phase in ('finished_ctrl', 'ctrl_shutdown_requested'):
@@ -173,6 +174,21 @@ def run_phase_case(case, ctx):
                 await asyncio.sleep(50)
             await edzed.run(supporting())
             do_send(phase)
+            return
+        if phase == 'run_task_created':
+            # edzed.run() with a supporting coroutine has created the simulation task, which has
+            # not made its first step yet; a task that was already scheduled sends an event
+            async def supporting():
+                await asyncio.sleep(50)
+
+            async def sender():
+                res['run_task_state'] = circuit.is_finalized()
+                do_send(phase)
+            runtask = asyncio.create_task(edzed.run(supporting()))
+            await asyncio.create_task(sender())
+            await asyncio.sleep(0)
+            await circuit.shutdown()
+            await runtask
             return
         task = asyncio.create_task(circuit.run_forever())
         if phase == 'task_created':
@@ -262,7 +278,7 @@ def judge_phase(case, res, ctx):
         if recv:
             raise core.Violation(f'delivered-when-not-running-{phase}',
                                  f"{where}: event delivered although refused: {recv}")
-        if destkind in ('input', 'counter') and res['dest_output'] not in (0, edzed.UNDEF):
+        if destkind in ('input', 'pinput', 'counter') and res['dest_output'] not in (0, edzed.UNDEF):
             raise core.Violation(f'delivered-when-not-running-{phase}',
                                  f"{where}: destination output changed to {res['dest_output']!r}")
         return
@@ -272,7 +288,7 @@ def judge_phase(case, res, ctx):
             raise core.Violation('non-string-source-accepted', f"{where}: outcome {out}, recv {recv}")
         return
     ctx.count('delivered')
-    if shape['value'] is not True and destkind in ('input', 'counter'):
+    if shape['value'] is not True and destkind in ('input', 'pinput', 'counter'):
         # 'put' without its value: a parameter error reported to the caller (see C09/C20)
         if out[:2] != ('exc', 'TypeError'):
             raise core.Violation('missing-value-not-reported', f"{where}: outcome {out}")
@@ -283,7 +299,7 @@ def judge_phase(case, res, ctx):
     if shape['value'] is True:
         exp['value'] = case['val']
     exp['source'] = src
-    if destkind in ('probe', 'fsm'):
+    if destkind in ('probe', 'fsm', 'pfsm'):
         if len(recv) != 1:
             raise core.Violation('delivery-count', f"{where}: {len(recv)} deliveries")
         data = recv[0][5]
@@ -294,7 +310,7 @@ def judge_phase(case, res, ctx):
         want = ('handled', 'put') if destkind == 'probe' else True
         if out[1] != want:
             raise core.Violation('return-value', f"{where}: send() returned {out[1]!r}, handler {want!r}")
-    elif destkind == 'input':
+    elif destkind in ('input', 'pinput'):
         if 'value' in exp:
             if out[1] is not True or res['dest_output'] != exp['value']:
                 raise core.Violation('return-value', f"{where}: returned {out[1]!r}, output {res['dest_output']!r}")
